@@ -321,11 +321,14 @@ fn cli_leg(rep: &mut Report, bases: &[Base]) {
             };
             std::fs::write(&apath, &bytes).unwrap();
             std::fs::write(&seed, &base.source).unwrap();
-            let (variant, extra) = match n % 3 {
+            let (variant, mut extra) = match n % 3 {
                 0 => ("plain", vec![]),
                 1 => ("verify-output", vec!["--verify-output".to_string()]),
                 _ => ("seeded", vec!["--seed".to_string(), seed.to_str().unwrap().to_string()]),
             };
+            // every way the command line can be told to pipeline the work: a single buffer (the default on a one-CPU
+            // machine), a few, many
+            extra.extend(["--buffered-chunks".to_string(), ["1", "3", "1", "16"][(n / 3) % 4].to_string()]);
             let _ = std::fs::remove_file(&out);
             // the real binary: a corrupted header can make the process abort (allocation of a
             // garbage dictionary size), which must not take the harness down
@@ -442,6 +445,7 @@ fn server_leg(rep: &mut Report, bases: &[Base]) {
                 }
             }
         }
+        let mut fault_case_no = 0usize;
         for at in 0..nreq_max {
             for f in &faults {
                 for (variant, extra, persistent) in [("plain", vec![], false), ("verify-output", vec!["--verify-output".to_string()], false), ("seeded", vec!["--seed".to_string(), seed.to_str().unwrap().to_string()], false),
@@ -454,6 +458,8 @@ fn server_leg(rep: &mut Report, bases: &[Base]) {
                     let _ = std::fs::remove_file(&out);
                     let mut ex = extra.clone();
                     ex.extend(["--http-retry-count".to_string(), if persistent { "2" } else { "0" }.to_string(), "--http-retry-delay".to_string(), "0".to_string()]);
+                    fault_case_no += 1;
+                    ex.extend(["--buffered-chunks".to_string(), ["1", "2", "1", "8"][fault_case_no % 4].to_string()]);
                     let r = cli_clone(&lab.rt, cli_clone_args(&lab.server.url(), &out, &ex));
                     agg.add("server_fault_cases", 1);
                     let hit = lab.server.log().len() > at;
